@@ -148,6 +148,12 @@ func (node *PFCPNode) NewPFCPConn(lAddr, rAddr string, buf []byte) *PFCPConn {
 		p.HandlePFCPMsg(buf)
 	}
 
+	// the first message may have ended the connection already (an Association Release Request):
+	// a connection that is shut down must not be registered, nobody would ever remove it
+	if p.shutdownStarted.Load() {
+		return p
+	}
+
 	// Update map of connections
 	node.pConns.Store(rAddr, p)
 
